@@ -8,7 +8,7 @@ from vlib import ksim
 
 PROPERTY = "C03"
 RULE = ("initial workers 1-4 x timeout {0,1,2,5,30} x history of up to 12 external events {worker exit with status 0/1/3/4/255 or "
-        "signal 9/15/11, TTIN/TTOU bursts of 1-7 signals, HUP with a new worker count, child dying inside fork(), tick} x a schedule "
+        "signal 9/15/11, TTIN/TTOU bursts of 1-7 signals, HUP with a new worker count, child dying inside fork(), a non-worker child and a worker dying under one SIGCHLD, tick} x a schedule "
         "vector that decides at every fake system call (fork, kill, waitpid, sleep, select) whether a dying child dies there, so that "
         "SIGCHLD's handler runs inside spawn_worker, kill_workers, manage_workers, reload; the real Arbiter.run() executes against the "
         "simulated kernel and is compared with a reference pool model at quiescence (timeout+8 idle seconds after the last event): "
@@ -31,6 +31,7 @@ event = st.one_of(
     st.tuples(st.just("sig"), st.lists(st.sampled_from(["SIGTTIN", "SIGTTOU"]), min_size=1, max_size=2)),
     st.tuples(st.just("hup"), st.integers(1, 4)),
     st.tuples(st.just("fastdeath"), st.sampled_from([0, 1 << 8, 9, 11, 255 << 8])),
+    st.tuples(st.just("coalesced"), st.integers(0, 5), st.sampled_from([0, 1 << 8, 9])),
     st.tuples(st.just("tick")),
 )
 
